@@ -807,6 +807,10 @@ def seq_extreme(ip, s, which):
         return m
     if not ip.decide(s.length > 0, 'extreme-nonempty'):
         raise PyRaise(ExcVal('ValueError', ('zero-size array',)))
+    ckey = (id(s), id(s.fn), str(s.length), which)
+    cache = ip.ghost.setdefault('extreme_cache', {})
+    if ckey in cache and cache[ckey][0] is s:
+        return cache[ckey][1]          # max/min of the same (unmodified) sequence is the same number
     snap = s.copy()
     probe = snap.fn(z3.IntVal(0))
     m = fresh_int('m') if is_int(probe) else fresh_real('m')
@@ -815,6 +819,7 @@ def seq_extreme(ip, s, which):
     fact = (lambda i: snap.fn(i) <= m) if which == 'max' else (lambda i: snap.fn(i) >= m)
     ip.add_universal(s, fact, snap.length)
     ip.extreme_facts.append((snap, m, which))
+    cache[ckey] = (s, m)
     return m
 
 
